@@ -10,6 +10,7 @@ git -C $w/repo apply /verif/seeded/$id/patch.diff || { echo "patch does not appl
 git -C /verif worktree add -q $w/verif HEAD || exit 9
 ( cd $w/verif && GV_REPO=$w/repo ./check "$prop" --no-evidence "$@" 2>&1 | grep -E '^(SUMMARY|VIOLATION|KNOWN-FINDING|INCONCLUSIVE|counterexample|NOTE)' | cut -c1-300 )
 rc=${PIPESTATUS[0]}
+mkdir -p /root/mlogs/pb; cp $w/verif/.build/pb_*.log /root/mlogs/pb/ 2>/dev/null
 git -C /verif worktree remove --force $w/verif
 git -C /repo worktree remove --force $w/repo
 rm -rf $w
